@@ -5,3 +5,6 @@ package jbig2
 // verifPool is the no-op counterpart of the verification hook in
 // verif_pool_on.go.
 func verifPool(byte, []byte, int, *bitmapPool) {}
+
+// verifPoolOn tells whether the pool hook is compiled in.
+const verifPoolOn = false
